@@ -20,6 +20,7 @@
 //	R7 os.Exit(c)                  -> vrt.Exit(c)
 //	R8 accesses to variables captured by go closures -> preceded by vrt.Acc(&v, isWrite, pos)
 //	R11 statements performing sync/atomic operations -> preceded by one vrt.AtomicYield() per operation
+//	R12 (-fnpoints) function entry (functions of >= 4 statements) -> vrt.FnYield()
 //	R10 func main() { B } in package main -> func main() { vrt.Main(func(){ B }) }
 //
 // Anything it cannot rewrite soundly is a hard error (exit 1), never skipped
@@ -64,11 +65,12 @@ var (
 	rtDir   = flag.String("rt", "/verif/rt", "runtime sources (vrt, vrand, extra files)")
 	outDir  = flag.String("out", "", "output directory (rewritten files + overlay.json)")
 	noRace  = flag.Bool("no-acc", false, "do not insert vrt.Acc shared-variable access events (R8)")
+	fnPoints = flag.Bool("fnpoints", false, "R12: a scheduling point at the entry of every function of 4 or more statements (heap interleavings by effect)")
 	verbose = flag.Bool("v", false, "verbose")
 )
 
 type stats struct {
-	Go, Send, Recv, RangeChan, Close, Mutex, Wg, Rand, MapRange, Now, Exit, Acc, Atomic int
+	Go, Send, Recv, RangeChan, Close, Mutex, Wg, Rand, MapRange, Now, Exit, Acc, Atomic, FnPoints int
 	Files                                                                       []string
 }
 
@@ -170,7 +172,11 @@ type rewriter struct {
 	tmpN    int
 	// shared: objects captured by go closures in the function being processed
 	shared map[types.Object]bool
-	noAcc  bool
+	// globals: package-level variables of this package that some function assigns to
+	// (a hoisted scratch buffer, a cache, a counter): shared by every goroutine
+	globals map[types.Object]bool
+	noAcc   bool
+	fnPts   bool
 }
 
 func instrumentPkg(fset *token.FileSet, imp types.Importer, p *listPkg, overlay map[string]string, st *stats) {
@@ -191,8 +197,9 @@ func instrumentPkg(fset *token.FileSet, imp types.Importer, p *listPkg, overlay 
 	if err != nil {
 		fatal("type-check %s: %v", p.ImportPath, err)
 	}
+	globals := writtenGlobals(pkg, info, files)
 	for i, f := range files {
-		rw := &rewriter{fset: fset, info: info, pkg: pkg, st: st, file: f, fname: names[i], noAcc: *noRace}
+		rw := &rewriter{fset: fset, info: info, pkg: pkg, st: st, file: f, fname: names[i], noAcc: *noRace, globals: globals, fnPts: *fnPoints}
 		rw.rewriteFile()
 		if !rw.changed {
 			continue
@@ -336,6 +343,11 @@ func (rw *rewriter) rewriteFile() {
 			rw.findShared(fd.Body)
 		}
 		rw.block(fd.Body)
+		// R12 (-fnpoints): a scheduling point at the entry of every function of 4 or more statements
+		if rw.fnPts && len(fd.Body.List) >= 4 && rw.pkg.Name() != "main" {
+			fd.Body.List = append([]ast.Stmt{&ast.ExprStmt{X: rw.call("FnYield")}}, fd.Body.List...)
+			rw.st.FnPoints++
+		}
 		// R10: the program entry point runs as thread 0 of a controlled execution
 		// when the environment asks for one (subprocess mode), else unchanged
 		if rw.pkg.Name() == "main" && fd.Recv == nil && fd.Name.Name == "main" {
@@ -378,6 +390,58 @@ func addImport(f *ast.File, name, path string) {
 	gd := &ast.GenDecl{Tok: token.IMPORT, Specs: []ast.Spec{spec}}
 	f.Decls = append([]ast.Decl{gd}, f.Decls...)
 	f.Imports = append(f.Imports, spec)
+}
+
+// writtenGlobals: package-level variables (plain data, no map, channel or sync object) that are
+// assigned, incremented or element-written inside some function of the package.
+func writtenGlobals(pkg *types.Package, info *types.Info, files []*ast.File) map[types.Object]bool {
+	out := map[types.Object]bool{}
+	mark := func(e ast.Expr) {
+		id := rootIdentSel(e)
+		if id == nil {
+			return
+		}
+		v, ok := info.Uses[id].(*types.Var)
+		if !ok || v.Pkg() != pkg || v.Parent() != pkg.Scope() {
+			return
+		}
+		t := v.Type()
+		if isChan(t) || isMap(t) {
+			return
+		}
+		if pt, ok := t.(*types.Pointer); ok {
+			t = pt.Elem()
+		}
+		if nt, ok := t.(*types.Named); ok && nt.Obj().Pkg() != nil && (nt.Obj().Pkg().Path() == "sync" || nt.Obj().Pkg().Path() == "sync/atomic") {
+			return
+		}
+		if _, isSel := e.(*ast.SelectorExpr); isSel {
+			return // a field of a global structure: not tracked
+		}
+		out[v] = true
+	}
+	for _, f := range files {
+		for _, d := range f.Decls {
+			fd, ok := d.(*ast.FuncDecl)
+			if !ok || fd.Body == nil || (fd.Recv == nil && fd.Name.Name == "init") {
+				continue
+			}
+			ast.Inspect(fd.Body, func(n ast.Node) bool {
+				switch t := n.(type) {
+				case *ast.AssignStmt:
+					if t.Tok != token.DEFINE {
+						for _, l := range t.Lhs {
+							mark(l)
+						}
+					}
+				case *ast.IncDecStmt:
+					mark(t.X)
+				}
+				return true
+			})
+		}
+	}
+	return out
 }
 
 // findShared collects the variables that a go-closure in body captures from
@@ -897,13 +961,13 @@ func (rw *rewriter) accessesIn(e ast.Expr, write bool) []ast.Stmt {
 				return out
 			}
 		case *ast.Ident:
-			if o, ok := rw.info.Uses[t].(*types.Var); ok && rw.shared[o] {
+			if o, ok := rw.info.Uses[t].(*types.Var); ok && (rw.shared[o] || rw.globals[o]) {
 				out = append(out, rw.accStmt(ast.NewIdent(t.Name), true, e))
 			}
 			return out
 		case *ast.IndexExpr:
 			if root := rootIdent(t); root != nil {
-				if o, ok := rw.info.Uses[root].(*types.Var); ok && rw.shared[o] && !isMap(rw.typeOf(t.X)) {
+				if o, ok := rw.info.Uses[root].(*types.Var); ok && (rw.shared[o] || rw.globals[o]) && !isMap(rw.typeOf(t.X)) {
 					out = append(out, rw.accessesIn(t.X, false)...)
 					out = append(out, rw.accessesIn(t.Index, false)...)
 					out = append(out, rw.accStmt(cloneExpr(t), true, e))
@@ -921,7 +985,7 @@ func (rw *rewriter) accessesIn(e ast.Expr, write bool) []ast.Stmt {
 			return false
 		case *ast.IndexExpr:
 			if root := rootIdent(t); root != nil {
-				if o, ok := rw.info.Uses[root].(*types.Var); ok && rw.shared[o] && !isMap(rw.typeOf(t.X)) {
+				if o, ok := rw.info.Uses[root].(*types.Var); ok && (rw.shared[o] || rw.globals[o]) && !isMap(rw.typeOf(t.X)) {
 					if _, isSlice := rw.typeOf(t.X).Underlying().(*types.Slice); isSlice {
 						k := exprString(t)
 						if !seen[k] {
@@ -932,7 +996,7 @@ func (rw *rewriter) accessesIn(e ast.Expr, write bool) []ast.Stmt {
 				}
 			}
 		case *ast.Ident:
-			if o, ok := rw.info.Uses[t].(*types.Var); ok && rw.shared[o] {
+			if o, ok := rw.info.Uses[t].(*types.Var); ok && (rw.shared[o] || rw.globals[o]) {
 				if !seen[t.Name] {
 					seen[t.Name] = true
 					out = append(out, rw.accStmt(ast.NewIdent(t.Name), false, t))
